@@ -155,6 +155,8 @@ def obs_c15(case):
         ev["P"] = list(P)
         by, _ = walk.index_layout(lay)
         e = by.get(case["tgt"])
+        if e is None:  # reserved (hidden) bit flag
+            e = next((x for x in lay["lay"] if x["n"] == case["tgt"] and x["k"] == "x"), None)
         if e is not None:
             ev["tgt"] = project_target(e, value, P)
     return ev
